@@ -11,7 +11,13 @@ public:
     Witness(const MobilizedBody& mb, int which, bool negate, Event::Trigger dir, Real window = 0.1)
     :   TriggeredEventHandler(Stage::Position), mb(mb), which(which), negate(negate) { getTriggerInfo().setRequiredLocalizationTimeWindow(window); getTriggerInfo().setTriggerOnRisingSignTransition(dir & Event::Rising ? true : false);
         getTriggerInfo().setTriggerOnFallingSignTransition(dir & Event::Falling ? true : false); }
-    Real getValue(const State& s) const override { Real e = mb.getOneQ(s, 0) - g_c[which]; return negate ? -e : e; }
+    Real getValue(const State& s) const override {
+        Real e = mb.getOneQ(s, 0) - g_c[which];
+        // the second witness is quadratic in time (same root, same sign near it): the secant estimates are then inexact and the
+        // final window width is governed by this witness's own required localisation window
+        if (which == 1) e = e + 0.5 * e * e;
+        return negate ? -e : e;
+    }
     void handleEvent(State& s, Real accuracy, bool& shouldTerminate) const override {
         if (g_nHandled < 8) { g_handleTime[g_nHandled] = s.getTime(); g_handleQ[g_nHandled] = mb.getOneQ(s, 0); }
         ++g_nHandled;
